@@ -1,5 +1,6 @@
 import Orca.Gen.RefTables
 import Orca.Lemmas.Ops
+import Orca.Lemmas.Preserve
 /-!
 # C06 — function references stay bound to the same function across edits
 
@@ -88,5 +89,24 @@ theorem c06_added_function_ids (s : St) (uid : Nat) (sites : List Ref) :
     (addImportFunc s uid).2 = Ret.id2 s.f.items.length s.imports.length
     ∧ (addLocalFunc s uid sites).2 = Ret.id s.f.items.length :=
   ⟨(addImportFunc_spec s uid).1, (addLocalFunc_spec s uid sites).1⟩
+
+/-- **the invariant needs no per-case check.** What the parser builds satisfies it (a decidable check on the initial state),
+    and every operation of the edit API except `encode` preserves it, whatever it reports. -/
+theorem c06_invariant_is_inductive (s : St) (op : Op) (hop : op ≠ .encode) (h : StInv s) : StInv (step s op).1 :=
+  stInv_step s op hop h
+
+theorem c06_invariant_of_parsed (s : St) (hb : stInvB s = true)
+    (hf : ∀ it ∈ s.f.items, it.del = false) (hg : ∀ it ∈ s.g.items, it.del = false) (hm : ∀ it ∈ s.m.items, it.del = false) :
+    StInv s := stInv_of_parsed s hb hf hg hm
+
+/-- `c06_encode_refs` after **any** history of edits on a parsed module: no hypothesis on the state that is encoded -/
+theorem c06_encode_refs_after_any_history (s0 : St) (h0 : StInv s0) (ops : List Op) (hn : NoEncode ops) :
+    let s := (run s0 ops).1
+    (∃ s' F G M res st, encode s = (s', Ret.encoded F G M res st)
+        ∧ (∀ r' ∈ res ++ st.toList, ∃ r ∈ allRefs s, r'.site = r.site ∧ r'.sp = r.sp
+            ∧ ∃ u, PointsTo s r u ∧ designated F G M r' = some u))
+    ∨ (∃ s' why, encode s = (s', Ret.panic why) ∧ ∃ r ∈ allRefs s, Dangling s r) :=
+  let h := spaceInv_after s0 h0 ops hn
+  encode_spec _ h.1 h.2.1 h.2.2
 
 end Orca.Edit
